@@ -133,7 +133,23 @@ func (v *FnVerifier) readTok(st *State, id, kind string, extra func(payload stri
 	ok = v.smt.define("tok.ok", "Bool", cond)
 	P := v.heap(st, sp)
 	v.setHeap(st, sp, ite(ok, sto(P, id, "(+ "+p+" 1)"), P))
+	v.noteEnd(st, id, "(>= "+p+" "+n+")")
 	return
+}
+
+// trackEnd: the unit records (ghost hitend) every read attempted at the end of a stream, so that a
+// decoder's contract can say "a read that ran out of input makes the decoder fail" (opt trackend).
+func (v *FnVerifier) trackEnd() bool { return v.fc != nil && v.fc.Opts["trackend"] != "" }
+
+const hitEndKey = "GH!hitend"
+
+func (v *FnVerifier) noteEnd(st *State, id, ended string) {
+	if !v.trackEnd() {
+		return
+	}
+	k := v.ghostKey("hitend", "(Array Int Bool)")
+	H := v.heap(st, k)
+	v.setHeap(st, k, ite(ended, sto(H, id, "true"), H))
 }
 
 func (v *FnVerifier) writeErr(st *State, fr *Frame, hint string) (okT, errT string) {
@@ -493,6 +509,7 @@ func init() {
 			}
 			v.setHeap(st, k, ite(hit, upd, ite(eof, before[k], hv)))
 		}
+		v.noteEnd(st, id, eof)
 		n := v.smt.fresh("rd.n", "Int")
 		errT := v.smt.fresh("rd.err", "Iface")
 		v.smt.assert(and("(<= 0 "+n+")", "(<= "+n+" (s.len "+b+"))"))
